@@ -78,8 +78,50 @@ NEEDS = {
             "a list entry unchanged by strings.Title, a capitalising scheme and a draw putting it in a capitalised slot"),
 }
 
+
+NEEDS_R2 = {
+ "C01-m1": ("util.go randomUint32: re-reads when the 4 bytes are all zero — alternative 0 loses one raw word for every n (mask path included)", "an aligned 00 00 00 00 raw word"),
+ "C01-m2": ("util.go randomUint32n: branch for n > MaxInt32 does `if v >= n { v -= n }` without rejection", "a bound above 2^31 that is not a power of two and a raw word >= n"),
+ "C02-m1": ("char_gen.go buildCharacterList: a wholly excluded required set is removed in place without stepping the index back — the next required set keeps its excluded characters", "a required set fully wiped by exclusion followed by another required set"),
+ "C02-m2": ("char_sets.go requireFilter: byte-indexed lookup pwd[i:i+1] — a multi-byte required character is never matched", "a required set mixing non-ASCII and ASCII members"),
+ "C03-m1": ("char_gen.go Generate: token buffer allocated before the trial loop and appended to without reset — (k+1)*Length tokens after k rejected candidates", "at least one rejected candidate"),
+ "C03-m2": ("char_gen.go Generate: break on success and an exhausted check that can never be true — the last rejected candidate is returned with a nil error", "all permitted attempts failing"),
+ "C04-m1": ("word_gen.go Generate: a word index is redrawn while it equals the previous word's index ('no stuttering')", "two consecutive equal word draws"),
+ "C04-m2": ("word_gen.go Generate: the last (separator, entropy) pair is cached and the separator function is called again only while the reported entropy is non-zero", "a separator call that reports entropy 0 but whose value would vary (e.g. a separator recipe exhausting its attempts in one gap)"),
+ "C05-m1": ("word_gen.go: token buffer kept on the WordList and reused — a returned Password aliases it and is overwritten by a later Generate", "holding a password across a later Generate on the same list"),
+ "C05-m2": ("word_gen.go Generate: the per-gap len(sep) > 0 test hoisted to 'a separator is configured' — empty separator tokens", "a functional separator returning \"\" (SFNone)"),
+ "C06-m1": ("char_gen.go buildCharacterList: alphabet by concatenation instead of union — characters shared by overlapping required sets are drawn twice while n() counts distinct strings", "overlapping required sets"),
+ "C06-m2": ("word_gen.go Entropy: the random-scheme bonus becomes Length * capitalizeRatio()", "scheme random on a list mixing capitalisable and uncapitalisable words"),
+ "C07-m1": ("char_gen.go Entropy: early -Inf when Length < number of required sets (valid only for disjoint sets)", "overlapping required sets and Length smaller than their number"),
+ "C07-m2": ("util.go entropySimple: log2(math.Pow(nelem, length)) — +Inf once the count reaches 2^1024", "nothing required and Length*log2(size) >= 1024"),
+ "C08-m1": ("word_gen.go NewWordList: 'capitalisable' decided by whether the first rune is lower-case instead of comparing with strings.Title", "words like 'tis, (sic), Ice-cream or a word starting with a caseless letter"),
+ "C08-m2": ("word_gen.go Entropy: random-scheme bonus Length * capitalizeRatio() instead of the all-or-nothing guard", "scheme random on a mixed list"),
+ "C09-m1": ("util.go randomUint32n: rejection loop reads with a shadowed err and breaks on failure — the error is swallowed", "a rejected first draw and a failing read right after it"),
+ "C09-m2": ("util.go randomUint32: the 4-byte buffer hoisted to a package-level variable", "two generations interleaving between read and decode"),
+ "C10-m1": ("word_gen.go NewWordList: a capFirst helper (first rune only) instead of strings.Title in the twin passes", "a word with an internal non-letter and one of its capitalised forms"),
+ "C10-m2": ("word_gen.go NewWordList: twin removal only when the list had an exact duplicate ('already clean' shortcut)", "a twin pair in a list without exact duplicates"),
+ "C11-m1": ("token.go MakeIndices (compact kinds): uint8 conversion before the > 255 guard — lengths silently mod 256", "a token of 256 or more characters in an all-atom or alternating sequence"),
+ "C11-m2": ("token.go Tokenize (full kind): returns a fresh Password without the Entropy argument", "a full-kind index (entropy comes back 0)"),
+ "C12-m1": ("token.go Tokenize (full kind): parity check dropped — a truncated index decodes with one token fewer", "kind byte 3 with an even total length"),
+ "C12-m2": ("token.go Tokenize: early return for an empty password — unknown kinds, over-long lengths and truncated indices are accepted", "the empty string with a malformed index"),
+ "C13-m1": ("char_strength.go n(): 'pruning' shortcut with IsSubset instead of empty intersection — SuccessProbability too high for overlapping sets", "overlapping required sets in a particular order"),
+ "C13-m2": ("word_gen.go Generate: guard r.Size()==0 became r.list==nil — an empty non-nil list reaches randomUint32n(0)", "NewWLRecipe(n, &WordList{})"),
+ "C14-m1": ("char_gen.go: Entropy gets a pointer receiver — buildCharacterList writes the shared recipe", "concurrent Entropy and Generate on one *CharRecipe"),
+ "C14-m2": ("util.go randomUint32n: package-level counter incremented in the rejection loop only", "two goroutines both drawing a rejected raw word (invisible to a race run on the real source)"),
+ "C15-m1": ("util.go randomUint32: bytes fetched 64 at a time into a package-level block handed out across calls", "the same call after different numbers of earlier draws"),
+ "C15-m2": ("char_gen.go: buildCharacterList appends the classes to r.AllowChars / r.ExcludeChars and Alphabet gets a pointer receiver", "an Alphabet() call followed by a narrowed Allow or cleared Exclude"),
+ "C16-m1": ("char_gen.go: MaxFailRate 1e-8 instead of 1e-9", "a recipe whose overall failure probability lies in (1e-9, 1e-8]"),
+ "C16-m2": ("char_gen.go: the '-' of ctSymbols replaced by U+2010", "drawing that symbol"),
+ "C17-m1": ("cmd/opgen parseCharacterClasses: ccFlags += ccFlag instead of |=", "a class word repeated in a list"),
+ "C17-m2": ("cmd/opgen loadWordListFile: strings.Split(TrimSpace, \"\\n\") instead of strings.Fields", "files with several words on a line, CRLF, blank lines or trailing blanks"),
+ "C18-m1": ("word_gen.go sfWrap: a 'cannot happen' log line quoting the separator when len(sep) != Length (bytes vs characters)", "a separator recipe over multi-byte characters"),
+ "C18-m2": ("char_sets.go requireFilter: logs the set name and the whole candidate when a required set was emptied by exclusion", "a required set entirely covered by the exclusions"),
+}
+
 def main():
     src = sys.argv[1]
+    rnd = sys.argv[2] if len(sys.argv) > 2 else ""        # "" for round 1, "r2" for round 2
+    needs = NEEDS_R2 if rnd == "r2" else NEEDS
     verify = {}
     vf = os.path.join(src, "verify.jsonl")
     if os.path.exists(vf):
@@ -103,7 +145,8 @@ def main():
     os.makedirs(out, exist_ok=True)
     for d in sorted(glob.glob(os.path.join(src, "C*", "m*"))):
         prop = os.path.basename(os.path.dirname(d))
-        sid = "%s-%s" % (prop, os.path.basename(d))
+        key = "%s-%s" % (prop, os.path.basename(d))
+        sid = "%s-%s%s" % (prop, rnd, os.path.basename(d))
         dst = os.path.join(out, sid)
         os.makedirs(dst, exist_ok=True)
         for f in os.listdir(d):
@@ -112,9 +155,9 @@ def main():
         res = matrix.get(d, {})
         caught = sorted(c for c, x in res.items() if x["rc"] == 1)
         missed = sorted(c for c, x in res.items() if x["rc"] == 0)
-        what, needs = NEEDS.get(sid, ("", ""))
+        what, nd = needs.get(key, ("", ""))
         meta = {
-            "id": sid, "property": prop, "change": what, "needs_to_manifest": needs,
+            "id": sid, "property": prop, "change": what, "needs_to_manifest": nd,
             "origin": "written by a sub-agent given only the property text and a scratch worktree of /repo",
             "confirmed_by_me": {"tool": "tools/seedverify.py (scratch worktree of /repo HEAD)", "patch_applies": v.get("applies"), "builds_with_and_without_tag": v.get("builds"),
                                 "existing_suite_passes_with_patch_x2": v.get("suite_pass_with_patch"), "demo_passes_on_clean_tree": v.get("demo_clean_pass"),
